@@ -454,13 +454,14 @@ class NotInFormat(Exception):
 
 
 def w_time(s):
-    m = re.fullmatch(r"(\d{4})-(\d\d)-(\d\d)T(\d\d):(\d\d):(\d\d)(Z|[+-]\d\d:\d\d)", s)
+    m = re.fullmatch(r"(\d{4})-(\d\d)-(\d\d)T(\d\d):(\d\d):(\d\d)(\.\d{1,9})?(Z|[+-]\d\d:\d\d)", s)
     if not m:
         raise NotInFormat("time " + s)
     y, mo, d, h, mi, sec = (int(x) for x in m.groups()[:6])
-    z = m.group(7)
+    frac = int((m.group(7) or ".0")[1:].ljust(9, "0"))
+    z = m.group(8)
     off = 0 if z == "Z" else (1 if z[0] == "+" else -1) * (int(z[1:3]) * 3600 + int(z[4:6]) * 60)
-    return {"ns": (calendar.timegm((y, mo, d, h, mi, sec)) - off) * 10**9, "z": off}
+    return {"ns": (calendar.timegm((y, mo, d, h, mi, sec)) - off) * 10**9 + frac, "z": off}
 
 
 def w_node(tok):
